@@ -3,6 +3,7 @@ package main
 import (
 	"encoding/json"
 	"fmt"
+	"go/constant"
 	"go/token"
 	"go/types"
 	"os"
@@ -456,6 +457,226 @@ func c14Defaults(c *Ctx, withOrder bool) {
 	}
 }
 
+// commentTest recognises `strings.HasPrefix(x, "#")`, `x[0] == '#'`, `x[0] != '#'` and their negations:
+// the tested line and whether the condition being true means "is a comment".
+func commentTest(v ssa.Value) (subject ssa.Value, whenTrue bool, ok bool) {
+	switch x := v.(type) {
+	case *ssa.UnOp:
+		if x.Op == token.NOT {
+			s, w, k := commentTest(x.X)
+			return s, !w, k
+		}
+	case *ssa.Call:
+		if callName(&x.Call) == "strings.HasPrefix" && len(x.Call.Args) == 2 {
+			if k, isK := x.Call.Args[1].(*ssa.Const); isK && k.Value != nil && k.Value.Kind() == constant.String && constant.StringVal(k.Value) == "#" {
+				return x.Call.Args[0], true, true
+			}
+		}
+	case *ssa.BinOp:
+		if x.Op != token.EQL && x.Op != token.NEQ {
+			return nil, false, false
+		}
+		for _, pair := range [][2]ssa.Value{{x.X, x.Y}, {x.Y, x.X}} {
+			k, isK := constInt(pair[1])
+			if !isK || k != '#' {
+				continue
+			}
+			switch e := pair[0].(type) {
+			case *ssa.Lookup:
+				if z, isZ := constInt(e.Index); isZ && z == 0 {
+					return e.X, x.Op == token.EQL, true
+				}
+			case *ssa.Index: // string indexing
+				if z, isZ := constInt(e.Index); isZ && z == 0 {
+					return e.X, x.Op == token.EQL, true
+				}
+			case *ssa.UnOp:
+				if ia, isIA := e.X.(*ssa.IndexAddr); isIA && e.Op == token.MUL {
+					if z, isZ := constInt(ia.Index); isZ && z == 0 {
+						return ia.X, x.Op == token.EQL, true
+					}
+				}
+			}
+		}
+	}
+	return nil, false, false
+}
+
+// c14LookaheadComments: "lines starting with # are ignored", also the line looked at to decide whether
+// a request line is followed by a header block. Either that decision is taken on a line known not
+// to be a comment, or the decision is taken again after every comment skipped inside the block;
+// otherwise `GET a / # note / GET b` (no blank line) turns the second request line into a header.
+func c14LookaheadComments(c *Ctx) {
+	const rule = "the looked-ahead line that decides between 'next target' and 'header block' is not a comment (comments are skipped before the request-line test), or the request-line test is repeated after every comment skipped inside the block: a comment never hides the next request line"
+	w := findScanWrap(c)
+	if w == nil || w.peek == nil {
+		return // reported by lookahead:lib.peekingScanner
+	}
+	n := 0
+	for _, tc := range targeterClosures(c) {
+		cl := targeterBody(tc[1])
+		withInline(func() {
+			isLineSrc := func(v ssa.Value) bool {
+				call, ok := v.(*ssa.Call)
+				return ok && (call.Call.StaticCallee() == w.peek || (w.text != nil && call.Call.StaticCallee() == w.text))
+			}
+			isPeek := func(v ssa.Value) bool {
+				call, ok := v.(*ssa.Call)
+				return ok && call.Call.StaticCallee() == w.peek
+			}
+			var peeks, preds []*ssa.Call
+			eachInstrI(cl, func(i ssa.Instruction) {
+				call, ok := i.(*ssa.Call)
+				if !ok {
+					return
+				}
+				if isPeek(call) {
+					peeks = append(peeks, call)
+					return
+				}
+				// request-line test: a boolean function of the looked-ahead line other than the comment test
+				if b, isB := call.Type().Underlying().(*types.Basic); !isB || b.Kind() != types.Bool {
+					return
+				}
+				if _, _, isComment := commentTest(call); isComment {
+					return
+				}
+				for _, a := range call.Call.Args {
+					if flowsFrom(a, isPeek) {
+						preds = append(preds, call)
+						return
+					}
+				}
+			})
+			if len(peeks) == 0 {
+				return
+			}
+			n++
+			key := "lookahead-skips-comments:" + shortFn(cl)
+			c.Saw("function " + shortFn(cl))
+			if len(preds) == 0 {
+				c.Undecided(key, rule, "no request-line test on the looked-ahead line found", c.ats(instrsOfCalls(peeks))...)
+				return
+			}
+			// (a) the test is made on a line known not to be a comment: leaving aside the branch edges
+			// that establish "not a comment" for the tested line (comment test false, line blank),
+			// no request-line test is reachable from a lookahead
+			known := true
+			for _, p := range preds {
+				same := func(v ssa.Value) bool {
+					for _, a := range p.Call.Args {
+						if sameLoadedValue(v, a) {
+							return true
+						}
+					}
+					return false
+				}
+				type edge struct{ from, to *ssa.BasicBlock }
+				settles := map[edge]bool{}
+				for _, g := range inlinedRegion(c.P, cl) {
+					for _, b := range g.Blocks {
+						ifi, isIf := b.Instrs[len(b.Instrs)-1].(*ssa.If)
+						if !isIf {
+							continue
+						}
+						if subj, whenTrue, ok := commentTest(ifi.Cond); ok && same(subj) {
+							if whenTrue {
+								settles[edge{b, b.Succs[1]}] = true
+							} else {
+								settles[edge{b, b.Succs[0]}] = true
+							}
+							continue
+						}
+						if bo, isBo := ifi.Cond.(*ssa.BinOp); isBo {
+							// blank line: x == "" / len(x) == 0 (true edge), x != "" / len(x) > 0 / len(x) != 0 (false edge)
+							k, isK := bo.Y.(*ssa.Const)
+							if !isK || k.Value == nil {
+								continue
+							}
+							subj := bo.X
+							zero := k.Value.Kind() == constant.String && constant.StringVal(k.Value) == ""
+							if lc, isL := bo.X.(*ssa.Call); isL && callName(&lc.Call) == "builtin:len" {
+								subj = lc.Call.Args[0]
+								zero = k.Value.Kind() == constant.Int && k.Value.ExactString() == "0"
+							}
+							if !zero || !same(subj) {
+								continue
+							}
+							switch bo.Op {
+							case token.EQL:
+								settles[edge{b, b.Succs[0]}] = true
+							case token.NEQ, token.GTR:
+								settles[edge{b, b.Succs[1]}] = true
+							}
+						}
+					}
+				}
+				for _, pk := range peeks {
+					set := exploreWithout(func(from, to *ssa.BasicBlock) bool { return settles[edge{from, to}] }, pk, false, nil)
+					if set[p] {
+						known = false
+					}
+				}
+			}
+			if known {
+				c.Pass(key, rule, "comments are skipped before the request-line test", c.ats(instrsOfCalls(preds))...)
+				return
+			}
+			// (b) after every skipped comment the test is made again before a line becomes a header
+			isPred := map[ssa.Instruction]bool{}
+			for _, p := range preds {
+				isPred[p] = true
+			}
+			var bad []ssa.Instruction
+			eachInstrI(cl, func(i ssa.Instruction) {
+				ifi, ok := i.(*ssa.If)
+				if !ok {
+					return
+				}
+				_, whenTrue, isC := commentTest(ifi.Cond)
+				if !isC {
+					return
+				}
+				succ := ifi.Block().Succs[0]
+				if !whenTrue {
+					succ = ifi.Block().Succs[1]
+				}
+				set := exploreBlock(succ, func(x ssa.Instruction) bool { return isPred[x] })
+				for x := range set {
+					mu, isMU := x.(*ssa.MapUpdate)
+					if !isMU {
+						continue
+					}
+					if m, isM := mu.Map.Type().Underlying().(*types.Map); !isM || !types.Identical(m.Key(), types.Typ[types.String]) {
+						continue
+					}
+					if flowsFrom(mu.Key, isLineSrc) {
+						bad = append(bad, ifi)
+						return
+					}
+				}
+			})
+			sortInstrs(bad)
+			if len(bad) > 0 {
+				c.Fail(key, rule, "the request-line test is made on a line that may be a comment, and after a comment is skipped the following line can become a header without that test: `GET a`, `# note`, `GET b` yields one target with a header \"GET http\"", append(c.ats(instrsOfCalls(preds)), c.ats(bad)...)...)
+				return
+			}
+			c.Pass(key, rule, "the request-line test is repeated after every skipped comment", c.ats(instrsOfCalls(preds))...)
+		}, cl)
+	}
+	if n == 0 {
+		c.Undecided("lookahead-skips-comments:lib", rule, "no targeter looks ahead")
+	}
+}
+
+func instrsOfCalls(cs []*ssa.Call) []ssa.Instruction {
+	out := make([]ssa.Instruction, len(cs))
+	for i, x := range cs {
+		out[i] = x
+	}
+	return out
+}
+
 // c14BodyEndsBlock: blank lines are optional, so the line after a target's body reference may be the
 // next request line. Once a call has stored the target's own body it therefore must not consume
 // another input line it has not looked at first (Peek): the original ends the header block there.
@@ -536,6 +757,7 @@ func c14Rest(c *Ctx) {
 	// header case in parsers
 	c06HeaderCase(c)
 	c14BodyEndsBlock(c)
+	c14LookaheadComments(c)
 
 	// JSON target codec
 	tgt := c.P.Named("lib", "Target")
